@@ -22,6 +22,9 @@ On(sc, f) == f \in sc.ops
 Room(s, sc, kind) == CountOf(s, kind) < sc.max[kind]
 NamesFor(sc, kind) == IF kind \in FirstClass THEN sc.names ELSE {NoVal}
 
+(* the collection argument of a bulk call is handed over as a list, as a one-shot iterator, or as a list that *)
+(* names its first member twice - the same set of elements each time                                          *)
+ArgForms(C) == {c @@ [form |-> f] : <<c, f>> \in C \X {"list", "iter", "dup"}}
 Perms(q) == {p \in [DOMAIN q -> SeqSet(q)] : \A a, b \in DOMAIN q : a # b => p[a] # p[b]}
 BadSeqs(q, extra) ==      \* non-permutations: one dropped, one duplicated, a stranger added, and - same length -
                           \* one member written over another member or over by a stranger
@@ -61,10 +64,10 @@ CandsRel(s, sc, rn) ==
     \cup (IF On(sc, "remove:" \o rn)
      THEN {[op |-> "remove", rel |-> rn, p |-> p, x |-> x] : <<p, x>> \in P \X X} ELSE {})
     \cup (IF On(sc, "remove_from:" \o rn)
-     THEN UNION {{[op |-> "remove_from", rel |-> rn, p |-> p, xs |-> T] :
+     THEN ArgForms(UNION {{[op |-> "remove_from", rel |-> rn, p |-> p, xs |-> T] :
                      T \in SmallSubsets(SeqSet(s[r.list][p]))}
                  \cup {[op |-> "remove_from", rel |-> rn, p |-> p, xs |-> {x} \cup FirstOf(s[r.list][p])] :
-                     x \in X \ SeqSet(s[r.list][p])} : p \in P}
+                     x \in X \ SeqSet(s[r.list][p])} : p \in P})
      ELSE {})
     \cup (IF On(sc, "reorder:" \o rn)
      THEN UNION {{[op |-> "reorder", rel |-> rn, p |-> p, seq |-> q] :
@@ -81,10 +84,10 @@ CandsWire(s, sc) ==
      THEN {[op |-> "disconnect", w |-> w, pin |-> r] : <<w, r>> \in IdsW(s) \X (refs \cup BadRefs(s))}
      ELSE {})
     \cup (IF On(sc, "disconnect_from")
-     THEN UNION {{[op |-> "disconnect_from", w |-> w, pins |-> T] :
+     THEN ArgForms(UNION {{[op |-> "disconnect_from", w |-> w, pins |-> T] :
                      T \in SmallSubsets({r \in refs : WireOfRef(s, r) = w})}
                  \cup {[op |-> "disconnect_from", w |-> w, pins |-> {r}] :
-                     r \in {rr \in refs : WireOfRef(s, rr) # w}} : w \in IdsW(s)}
+                     r \in {rr \in refs : WireOfRef(s, rr) # w}} : w \in IdsW(s)})
      ELSE {})
     \cup (IF On(sc, "reorder_pins")
      THEN UNION {LET cur == s.wirePins[w]
